@@ -5230,6 +5230,38 @@ let rec find_default defaults key =
     let (name, d) = p in
     if default_matches name key then Some d else find_default r key
 
+(** val unwrap_function_default : str option list -> node -> node **)
+
+let unwrap_function_default types d =
+  match types with
+  | [] -> d
+  | o :: l ->
+    (match o with
+     | Some t ->
+       (match l with
+        | [] ->
+          if sq (String ((Ascii (false, true, true, false, false, false,
+               true, false)), (String ((Ascii (true, false, true, false,
+               true, true, true, false)), (String ((Ascii (false, true, true,
+               true, false, true, true, false)), (String ((Ascii (true, true,
+               false, false, false, true, true, false)), (String ((Ascii
+               (false, false, true, false, true, true, true, false)), (String
+               ((Ascii (true, false, false, true, false, true, true, false)),
+               (String ((Ascii (true, true, true, true, false, true, true,
+               false)), (String ((Ascii (false, true, true, true, false,
+               true, true, false)), EmptyString)))))))))))))))) t
+          then (match d with
+                | Arrow (_, params, b, _, _, _, _) ->
+                  (match params with
+                   | [] -> (match b with
+                            | Block (_, _) -> d
+                            | _ -> b)
+                   | _ :: _ -> d)
+                | _ -> d)
+          else d
+        | _ :: _ -> d)
+     | None -> d)
+
 (** val build_props_type :
     env -> node -> (node * node) list -> st -> node * st **)
 
@@ -5274,7 +5306,8 @@ let build_props_type e ty defaults s =
              false, true, true, true, false)), (String ((Ascii (false, false,
              true, true, false, true, true, false)), (String ((Ascii (false,
              false, true, false, true, true, true, false)),
-             EmptyString)))))))))))))))), d)) :: []
+             EmptyString)))))))))))))))),
+           (unwrap_function_default ir.ir_types d))) :: []
        | None -> []))))) irs)), s1)
 
 (** val pat_type_ann : nat -> node -> node option **)
@@ -5472,7 +5505,6 @@ let lit_prop_name k = match k with
 | Num (_, _) -> Some k
 | Computed e ->
   (match e with
-   | Ident (sy, _, _) -> Some (IdName sy)
    | Str (_, _) -> Some e
    | Num (_, _) -> Some e
    | _ ->
@@ -6152,15 +6184,72 @@ let extract_emits_type e arg0 s =
           | None -> (None, s))
   | _ -> (None, s)
 
+(** val key_is : string -> node -> bool **)
+
+let key_is name = function
+| IdName s -> sq name s
+| Str (v, _) -> sq name v
+| _ -> false
+
 (** val has_ident_key : string -> node list -> bool **)
 
 let has_ident_key name props =
   existsb (fun p ->
     match p with
-    | KV (key, _) -> (match key with
-                      | IdName k -> sq name k
-                      | _ -> false)
+    | NObj _ ->
+      if (||)
+           (is_ty (String ((Ascii (true, true, true, false, false, false,
+             true, false)), (String ((Ascii (true, false, true, false, false,
+             true, true, false)), (String ((Ascii (false, false, true, false,
+             true, true, true, false)), (String ((Ascii (false, false, true,
+             false, true, true, true, false)), (String ((Ascii (true, false,
+             true, false, false, true, true, false)), (String ((Ascii (false,
+             true, false, false, true, true, true, false)), (String ((Ascii
+             (false, false, false, false, true, false, true, false)), (String
+             ((Ascii (false, true, false, false, true, true, true, false)),
+             (String ((Ascii (true, true, true, true, false, true, true,
+             false)), (String ((Ascii (false, false, false, false, true,
+             true, true, false)), (String ((Ascii (true, false, true, false,
+             false, true, true, false)), (String ((Ascii (false, true, false,
+             false, true, true, true, false)), (String ((Ascii (false, false,
+             true, false, true, true, true, false)), (String ((Ascii (true,
+             false, false, true, true, true, true, false)),
+             EmptyString)))))))))))))))))))))))))))) p)
+           (is_ty (String ((Ascii (true, false, true, true, false, false,
+             true, false)), (String ((Ascii (true, false, true, false, false,
+             true, true, false)), (String ((Ascii (false, false, true, false,
+             true, true, true, false)), (String ((Ascii (false, false, false,
+             true, false, true, true, false)), (String ((Ascii (true, true,
+             true, true, false, true, true, false)), (String ((Ascii (false,
+             false, true, false, false, true, true, false)), (String ((Ascii
+             (false, false, false, false, true, false, true, false)), (String
+             ((Ascii (false, true, false, false, true, true, true, false)),
+             (String ((Ascii (true, true, true, true, false, true, true,
+             false)), (String ((Ascii (false, false, false, false, true,
+             true, true, false)), (String ((Ascii (true, false, true, false,
+             false, true, true, false)), (String ((Ascii (false, true, false,
+             false, true, true, true, false)), (String ((Ascii (false, false,
+             true, false, true, true, true, false)), (String ((Ascii (true,
+             false, false, true, true, true, true, false)),
+             EmptyString)))))))))))))))))))))))))))) p)
+      then key_is name
+             (tf (String ((Ascii (true, true, false, true, false, true, true,
+               false)), (String ((Ascii (true, false, true, false, false,
+               true, true, false)), (String ((Ascii (true, false, false,
+               true, true, true, true, false)), EmptyString)))))) p)
+      else false
+    | Ident (s, _, _) -> sq name s
+    | KV (k, _) -> key_is name k
     | _ -> false) props
+
+(** val insert_before_spread : node -> node list -> node list **)
+
+let rec insert_before_spread kv = function
+| [] -> kv :: []
+| p :: r ->
+  (match p with
+   | Spread _ -> kv :: (p :: r)
+   | _ -> p :: (insert_before_spread kv r))
 
 (** val inject_option : node list -> string -> node -> node list **)
 
@@ -6181,7 +6270,7 @@ let inject_option args name value =
                    if has_ident_key name props
                    then args
                    else a0 :: ((Elem (false, (Obj
-                          (app props (kv :: []))))) :: r)
+                          (insert_before_spread kv props)))) :: r)
                  | _ ->
                    a0 :: ((Elem (false, (Obj (kv :: ((Spread
                      other) :: []))))) :: r))
